@@ -39,7 +39,7 @@ ASSUMPTIONS = ["network geometries are planar (z = 0); 'distance from the observ
 CASE_LIMIT_S = 60.0
 
 KF_VERTICAL = "C10:vertical-edge-projection"
-RADII = [1, 5, 15, 50, 200]
+RADII = [1, 5, 15, 50, 200, 0]       # 0: a regular value (only fixes lying on an edge may be matched), not "no radius"
 NOISES = [1, 10, 50]
 FLAVOURS = ["jitter", "jitter", "jitter", "shear", "axis", "nearaxis"]
 
